@@ -127,7 +127,7 @@ func genConfig(r *kernel.Rand, o GenOpts, nUE int) scn.Config {
 		lo = 4
 	}
 	// the MSIN must be able to count nUE subscribers upwards without overflowing
-	need := len(strconv.Itoa(nUE + 16))
+	need := len(strconv.Itoa(nUE + 2)) // one-digit MSINs for up to 7 subscribers
 	if lo < need {
 		lo = need
 	}
@@ -430,7 +430,9 @@ func genUE(r *kernel.Rand, o GenOpts, ord int) scn.UEParams {
 	}
 	if ra := r.Sub("sess-ambr"); ra.Chance(3, 4) {
 		// units of TS 24.501 9.11.4.14 (1..25), the reserved ends, and octets that read as a length or an IEI
-		unit := func() int { return ra.Pick(ra.Range(1, 25), ra.Range(1, 25), 0, 255, 0x29, 0x59, 0x79, 0x7b, ra.Intn(256)) }
+		unit := func() int {
+			return ra.Pick(ra.Range(1, 25), ra.Range(1, 25), 0, 255, 0x29, 0x59, 0x79, 0x7b, ra.Intn(256))
+		}
 		val := func() int { return ra.Pick(ra.Intn(65536), 0, 1, 0xffff, 0x2905, 0x0600, 0x0006) }
 		d, u := val(), val()
 		p.SessAMBR = fmt.Sprintf("%02x%04x%02x%04x", unit(), d, unit(), u)
